@@ -40,6 +40,9 @@ def build_cases(ck):
                                features=("loopcontrols", "recursive"))
     cases += jgen.random_cases(ck.seed * 7919 + 6, 80 if quick else 2000, start_id=len(cases) + 1, size=8,
                                features=("loopcontrols", "stateful"))
+    # autoescape blocks are scopes of their own
+    cases += jgen.random_cases(ck.seed * 7919 + 7, 60 if quick else 1500, start_id=len(cases) + 1, size=9,
+                               features=("loopcontrols", "regions"))
     return cases, n0
 
 
